@@ -4,6 +4,7 @@ import Req.Lemmas.C02Reader
 import Req.Lemmas.C02Bufio
 import Req.Lemmas.C02H1Simple
 import Req.Lemmas.C02Resp
+import Req.Lemmas.C02H2
 /-!
 C02 — response fidelity: property theorems.
 
@@ -268,5 +269,98 @@ example :
     (r.run [.read 1, .read 1, .toBytes, .bytes]).1 =
       [(.read 1, .data [104] .ok), (.read 1, .data [101] .ok),
        (.toBytes, .data [108, 108, 111] .ok), (.bytes, .cached (some [108, 108, 111]))] := by decide
+
+/-! ## Part C — HTTP/2 receive path -/
+
+/-- **stream_body_exact (HTTP/2).** A conformant frame sequence `m` (up to five interim 1xx
+HEADERS, the final HEADERS with status `code`, DATA frames — padded or not, empty or not —
+and END_STREAM on the last DATA or on a trailer HEADERS; a `Content-Length`, if present, equal
+to the total payload length). For EVERY interleaving `ops` of the read loop delivering a
+prefix of these frames with the caller calling `Read` with any sizes at any moments:
+
+* the bytes handed out are a prefix of the concatenated DATA payloads,
+* no read ever reports anything but data or `io.EOF`,
+* a read that reports `io.EOF` means the caller got EXACTLY the payload concatenation and
+  `Response.Trailer` holds the trailer fields,
+* once the head has been delivered the response carries the status and every regular field
+  under its canonical name, in wire order. -/
+theorem stream_body_exact_h2 (m : H2Msg) (code : Nat) (cl : Option Nat) (hc : m.Conformant code cl)
+    (ops : List H2Op) (rest : List H2Ev) (hev : m.events = evsOf ops ++ rest) :
+    let run := (H2Stream.init false).runOps ops
+    (∃ t, m.body = readsOut run.1 ++ t) ∧
+    (∀ o ∈ run.1, ObsOK o) ∧
+    (SawEOF run.1 → readsOut run.1 = m.body ∧ run.2.resTrailer = lastTrailers m.last) ∧
+    (rest.length ≤ m.datas.length + 1 →
+      ∃ res, run.2.res = some res ∧ res.status = code ∧ res.fields = h2Fields m.head) := by
+  have h0 : Ph m code cl (H2Stream.init false) (evsOf ops ++ rest) [] false := by
+    rw [← hev]
+    exact Ph.pre 0 m.interims (by simpa using hc.interims_le) hc.interims_ok
+  obtain ⟨b', hph, hobs, _, hsaw⟩ := Ph.run hc ops _ rest [] false h0
+  simp only [List.nil_append] at hph
+  refine ⟨hph.prefix_body, hobs, ?_, ?_⟩
+  · intro hs
+    have hb := hsaw hs
+    subst hb
+    exact hph.seen
+  · intro hrest
+    generalize ((H2Stream.init false).runOps ops).2 = s2 at hph
+    generalize readsOut ((H2Stream.init false).runOps ops).1 = c2 at hph
+    cases hph with
+    | pre j ints hj hok =>
+      simp [H2Msg.tailEvents] at hrest
+      omega
+    | mid j arrived consumed ds hpre hbody => exact ⟨_, rfl, rfl, rfl⟩
+    | fin j consumed eofSeen hpre hdone => exact ⟨_, rfl, rfl, rfl⟩
+
+/-- **stream_body_exact (HTTP/2), completion.** After all frames of a conformant response
+have arrived (in any interleaving with earlier reads), enough non-empty reads — one more than
+the bytes still unread always suffices — end with `io.EOF`, hence (previous theorem) with
+exactly the body. -/
+theorem stream_body_complete_h2 (m : H2Msg) (code : Nat) (cl : Option Nat) (hc : m.Conformant code cl)
+    (ops : List H2Op) (hev : m.events = evsOf ops) (ks : List Nat) (hpos : ∀ k ∈ ks, 0 < k)
+    (hlen : m.body.length < ks.length) :
+    let run := (H2Stream.init false).runOps (ops ++ ks.map H2Op.read)
+    SawEOF run.1 ∧ readsOut run.1 = m.body ∧ run.2.resTrailer = lastTrailers m.last := by
+  have hevs : evsOf (ops ++ ks.map H2Op.read) = evsOf ops := by
+    rw [evsOf_append, evsOf_reads, List.append_nil]
+  -- split the run at the point where all frames have arrived
+  have hsplit : ∀ (ops₁ ops₂ : List H2Op) (s : H2Stream),
+      (s.runOps (ops₁ ++ ops₂)).1 = (s.runOps ops₁).1 ++ ((s.runOps ops₁).2.runOps ops₂).1 := by
+    intro ops₁ ops₂
+    induction ops₁ with
+    | nil => intro s; simp [H2Stream.runOps]
+    | cons op ops₁ ih =>
+      intro s
+      cases op with
+      | ev e => simpa [H2Stream.runOps] using ih (s.event e)
+      | read k =>
+        simp only [List.cons_append, H2Stream.runOps]
+        cases hr : s.read k with
+        | none => simp [ih s]
+        | some x => simp [ih x.2]
+  have h0 : Ph m code cl (H2Stream.init false) (evsOf ops ++ []) [] false := by
+    rw [List.append_nil, ← hev]
+    exact Ph.pre 0 m.interims (by simpa using hc.interims_le) hc.interims_ok
+  obtain ⟨b', hph, _, _, _⟩ := Ph.run hc ops _ [] [] false h0
+  simp only [List.nil_append] at hph
+  have hdr := Ph.drain hc ks hpos _ _ b' hph (by omega)
+  have hsaw : SawEOF ((H2Stream.init false).runOps (ops ++ ks.map H2Op.read)).1 := by
+    obtain ⟨d, hd⟩ := hdr
+    exact ⟨d, by rw [hsplit]; simp [hd]⟩
+  have := (stream_body_exact_h2 m code cl hc (ops ++ ks.map H2Op.read) [] (by rw [hevs, List.append_nil]; exact hev)).2.2.1 hsaw
+  exact ⟨hsaw, this⟩
+
+/-! Non-vacuity: 103, then 200 with content-length 5, DATA "he" (padded), a read, DATA "llo"
+with END_STREAM, reads of 2,2,9,1 bytes: a blocked read in between, then "he","l","lo", EOF. -/
+example :
+    ((H2Stream.init false).runOps
+      [.read 4,
+       .ev (.headers [([58, 115, 116, 97, 116, 117, 115], [49, 48, 51])] false),
+       .ev (.headers [([58, 115, 116, 97, 116, 117, 115], [50, 48, 48]),
+                      ([99, 111, 110, 116, 101, 110, 116, 45, 108, 101, 110, 103, 116, 104], [53])] false),
+       .ev (.data [104, 101] true false), .read 2, .read 2,
+       .ev (.data [108, 108, 111] false true), .read 1, .read 9, .read 1]).1 =
+      [none, some ([104, 101], none), none, some ([108], none), some ([108, 111], none),
+       some ([], some .eof)] := by decide
 
 end Req.Props.C02
